@@ -422,6 +422,12 @@ def execute(spec: Dict[str, Any], ctx: Ctx) -> None:
                 ctx.switch(ci)
                 ctx.log.add("done", ci, ji, "findall", got_exc or len(got_vals))
                 want_vals = [m[2] for m in ref.ms]
+                if got_exc and ref.exc and got_exc != ref.exc and not strict_prefix:
+                    # Both raise, an item getter of this run is made to fail, and two different errors lurk in the
+                    # query: which one surfaces first depends on evaluation order alone.  A getter that raises is
+                    # this harness's fault injection, not a document of the statement: not judged.
+                    ctx.count("probe.two_lurking_errors_under_store_fault")
+                    return
                 if got_exc != ref.exc:
                     raise Violation(
                         "C08.errors",
@@ -465,6 +471,9 @@ def execute(spec: Dict[str, Any], ctx: Ctx) -> None:
                 got_exc = type(e).__name__
             ctx.switch(ci)
             ctx.log.add("done", ci, ji, "finditer", got_exc or len(got_ms))
+            if got_exc and ref.exc and got_exc != ref.exc and not strict_prefix:
+                ctx.count("probe.two_lurking_errors_under_store_fault")  # see above
+                return
             if got_exc != ref.exc:
                 raise Violation(
                     "C08.errors",
